@@ -482,7 +482,7 @@ func c33TagsObs(t *oggreader.OpusTags, err error) []byte {
 	}
 	b := []byte{1}
 	b = binary.BigEndian.AppendUint32(b, uint32(len(t.Vendor)))
-	b = append(b, t.Vendor...)
+	b = binary.BigEndian.AppendUint32(b, adler32.Checksum([]byte(t.Vendor)))
 	b = binary.BigEndian.AppendUint32(b, uint32(len(t.UserComments)))
 	for _, c := range t.UserComments {
 		b = binary.BigEndian.AppendUint32(b, uint32(len(c.Comment)))
